@@ -27,6 +27,15 @@ BUILT = {
          "modelled (operand order is checked through -, /, //, %, **, <<, >> only)",
          "TLA+ transcription of the operator methods vs plain-number meaning, TLC-generated programs, TLC-judged "
          "recorded trees"),
+ "C06": ("TLC enumerates the printable fragment (every node kind with every child position open over leaves and one "
+         "representative per kind, slices, tuples, three-level nestings over a reduced alphabet); each tree is printed, "
+         "parsed and printed again by the real code and TLC judges the recorded round trip against the statement: "
+         "parses, same tree after flattening nested sums/products (constants by value), identical second text, same "
+         "value in 7 environments (Eval).",
+         "trusted: PyNum/Eval, TLC; failing cases are attributed to listed (parent, position, child) edges by "
+         "containment (DESIGN 7.2), so a new defect is reported through its minimal witness; the A-layer transcription "
+         "of printer and parser is not part of this check yet",
+         "TLC-generated trees, recorded print/parse/print round trips, TLC-judged against Norm/Eval"),
 }
 
 REASON_NOT_YET = "check not built yet in this round (planned, see DESIGN.md section 13)"
